@@ -23,6 +23,10 @@ CLAIMS = {
          "Metadata children are invisible to the three places that decide markup: the sibling loop (no emission, no state change in any reachable state), the child counting of the frame (same tokens for n_meta in {0,1,>=2}, metadata first or not), hence to the rendered string."),
  "C19": ("exhaustive AST check of all 113+66 generated wrappers against the generator's folded inline table; Engine A on Tag.__init__ for the _add_ws type guard", "4/C19",
          "All generated functions and the 17 re-exports are enumerated: element-name constant, forwarding of *args/**kwargs/_add_ws, default == (name not in _INLINE_TAG_NAMES); Tag.__init__ rejects every non-bool kind before storing."),
+ "C10": ("abstract interpretation of _resolve_dependencies (3-ordering table), get_dependencies (per-kind collection table) and HTMLDependency.__init__ (validation-before-store over argument kinds)", "4/C10",
+         "Resolution replaces iff the new Version is strictly greater than the kept one (compared as Version objects), keyed by name, result in first-occurrence order; collection is pre-order with dedup only at the top; every script/stylesheet/meta form is normalised to a list and validated for its required keys before it is stored; non-dict/keyless sources are rejected."),
+ "C14": ("taint-with-sanitiser over TagList's effective mutator set (own + UserList parsed from the stdlib) via Engine A effect logs; dispatch tables of the normaliser, flatten, is_tag_node, is_tag_child", "4/C14",
+         "Every listed operation stores only results of the normaliser (or re-enters the checked constructor); normalisation precedes every storage write in each mutator (failure atomicity); the per-kind tables of the normaliser and of flatten are the documented ones; is_tag_child accepts every accepted kind and is_tag_node every stored kind."),
 }
 checks = []
 for pid, (tech, ref, text) in sorted(CLAIMS.items()):
